@@ -398,12 +398,13 @@ impl World {
                                 Some(d) if si.valid_data => {
                                     s += &format!(" {} {} {} {} {} {}", d.id, d.num, hex_str(&d.name), d.aux, hex_str(&d.tag), d.small)
                                 }
-                                _ => n_invalid += 1,
+                                _ => {
+                                    n_invalid += 1;
+                                    s += " X";
+                                }
                             }
                         }
-                        if n_invalid > 0 {
-                            s += &format!(" invalid={}", n_invalid);
-                        }
+                        let _ = n_invalid;
                         s
                     }
                     Ok(Err(e)) => format!("{} E{}", t[0], err_code(&e)),
@@ -449,53 +450,30 @@ impl World {
             }
             "netg" => {
                 let sizes: Vec<usize> = t[1..].iter().filter_map(|x| x.parse::<usize>().ok()).collect();
-                let mut delivered = 0usize;
                 let mut merged = 0usize;
+                let mut taken = 0usize;
+                let mut done: Vec<i64> = vec![];
                 self.sim.settle();
                 for k in sizes {
-                    // FIFO: deliver the non-DATA datagrams in front, collect the DATA ones of the next k distinct sns
+                    // collect, FIFO, the user DATA datagrams of the next k distinct (not yet delivered)
+                    // sequence numbers; everything else stays in flight for a later `net`
                     let mut group: Vec<Packet> = vec![];
                     let mut sns: Vec<i64> = vec![];
-                    loop {
-                        let next = {
-                            let mut q = self.sim.shared.inflight.lock().unwrap();
-                            let mut found = None;
-                            for (i, p) in q.iter().enumerate() {
-                                if p.held {
-                                    continue;
-                                }
-                                let sm = summarize(&p.bytes);
-                                let data_sn = if p.meta { None } else { sm.iter().find(|x| x.0 == "DATA").map(|x| x.2) };
-                                match data_sn {
-                                    Some(sn) => {
-                                        if sns.contains(&sn) || sns.len() < k {
-                                            found = Some((i, Some(sn)));
-                                            break;
-                                        } else {
-                                            // belongs to a later group: leave it in flight
-                                            continue;
-                                        }
+                    {
+                        let mut q = self.sim.shared.inflight.lock().unwrap();
+                        let mut i = 0;
+                        while i < q.len() {
+                            let p = &q[i];
+                            let data_sn = if p.meta || p.held { None } else { summarize(&p.bytes).iter().find(|x| x.0 == "DATA").map(|x| x.2) };
+                            match data_sn {
+                                Some(sn) if !done.contains(&sn) && (sns.contains(&sn) || sns.len() < k) => {
+                                    if !sns.contains(&sn) {
+                                        sns.push(sn);
                                     }
-                                    None => {
-                                        found = Some((i, None));
-                                        break;
-                                    }
+                                    group.push(q.remove(i));
                                 }
+                                _ => i += 1,
                             }
-                            found.map(|(i, sn)| (q.remove(i), sn))
-                        };
-                        match next {
-                            Some((p, Some(sn))) => {
-                                if !sns.contains(&sn) {
-                                    sns.push(sn);
-                                }
-                                group.push(p);
-                            }
-                            Some((p, None)) => {
-                                self.sim.deliver_packet(&p);
-                                delivered += 1;
-                            }
-                            None => break,
                         }
                     }
                     if !group.is_empty() {
@@ -506,10 +484,11 @@ impl World {
                         let p = Packet { id: 0, from: group[0].from, to: group[0].to, meta: false, bytes, held: false };
                         self.sim.deliver_packet(&p);
                         merged += 1;
-                        delivered += group.len();
+                        taken += sns.len();
+                        done.extend(sns);
                     }
                 }
-                format!("netg {} {}", merged, delivered)
+                format!("netg {} {}", merged, taken)
             }
             "adv" => {
                 self.sim.advance(n(1));
